@@ -103,8 +103,19 @@ func (w *World) arg(what string, s []int) []int {
 	if s == nil {
 		return nil
 	}
-	live := append(make([]int, 0, len(s)), s...)
-	w.args = append(w.args, argRec{live: live, pristine: cloneInts(s), step: w.step, what: what})
+	// every other call the caller's slice has spare capacity (filled with sentinels), as slices cut out
+	// of a larger buffer have: an append onto it inside the library would write into the caller's memory
+	spare := 0
+	if (w.step+len(w.args))%2 == 1 {
+		spare = 3
+	}
+	full := make([]int, len(s)+spare)
+	copy(full, s)
+	for i := len(s); i < len(full); i++ {
+		full[i] = -7001 - i
+	}
+	live := full[:len(s)]
+	w.args = append(w.args, argRec{live: full, pristine: cloneInts(full), step: w.step, what: what})
 	return live
 }
 
